@@ -125,6 +125,8 @@ macro_rules! float_ops {
         let fl = |i: usize| <$T>::from_bits(arg($a, i).parse::<$U>().unwrap_or_else(|_| bad()));
         match $op {
             "fcv_to" => format!("{}", x.to_num::<$T>().to_bits()),
+            "fcv_to_saturating" => format!("{}", x.saturating_to_num::<$T>().to_bits()),
+            "fcv_to_wrapping" => format!("{}", x.wrapping_to_num::<$T>().to_bits()),
             "fcv_to_checked" => match x.checked_to_num::<$T>() { None => "N".into(), Some(v) => format!("S:{}", v.to_bits()) },
             "fcv_to_overflowing" => { let (v, o) = x.overflowing_to_num::<$T>(); format!("{},{}", v.to_bits(), b01(o)) }
             "fcv_from_num" => fx::<$F>(<$F>::from_num(fl(2))),
